@@ -102,9 +102,9 @@ PROPS = {
                        "scribbling readers make stale/uninitialised commits visible."),
     },
     "C08": {
-        "module": "FBV.Props.C08",
+        "module": "FBV.Props.C08b",
         "theorems": ["FBV.C08.chain_bisim", "FBV.C08.chain_eq_std", "FBV.C08.rel_new", "FBV.C08.second_not_before_eof",
-                     "FBV.C08.first_never_again", "FBV.C08.first_error_passes", "FBV.C08.bufReader_spec",
+                     "FBV.C08.first_never_again", "FBV.C08.first_error_passes", "FBV.C08.bufReader_spec", "FBV.C08.chain_drains",
                      "FBV.C08.Legacy.legacy_skips_first"],
         "jobs": sync_jobs("chain"),
         "tie": "T2 three-way (implementation, real std::io::Chain, model) over scripted reader pairs",
@@ -118,8 +118,8 @@ PROPS = {
         "trusted_extra": ["std::io::Chain / std::io::Take modelled by hand from the pinned std source (tied three-way on every run)"],
     },
     "C09": {
-        "module": "FBV.Props.C09",
-        "theorems": ["FBV.C09.at_zero", "FBV.C09.offered_length", "FBV.C09.read_spec", "FBV.C09.take_eq_std", "FBV.C09.delivered_le_limit",
+        "module": "FBV.Props.C08b",
+        "theorems": ["FBV.C09.at_zero", "FBV.C09.offered_length", "FBV.C09.read_spec", "FBV.C09.take_eq_std", "FBV.C09.delivered_le_limit", "FBV.C09.take_drains",
                      "FBV.C09.streamReader_ok", "FBV.C09.srwReader_ok"],
         "jobs": sync_jobs("take"),
         "tie": "T2 three-way (implementation, real std::io::Take, model); scribbling inner readers make the offered length visible",
